@@ -441,7 +441,9 @@ class C14(World):
                     key = n
                     if key not in first:
                         first[key] = base
-                    elif same(base, first[key], max(tol, 1e-9) * (S**power) * 10, n):
+                    # 1e-6: an arc re-discretised from its three transformed control points goes through arc_center again,
+                    # which is accurate to ~1e-8 relative; a wrong region differs by O(1e-2) at least
+                    elif same(base, first[key], max(tol, 1e-6) * max(1.0, abs(first[key])), n):
                         fail(n + "-invariance", f"{n} {base} (normalised by s^{power}) != {first[key]} seen for another presentation / history of the same drawing")
         # coherence with a path freshly built from the current vertices and entities (C01-style)
         import copy as pycopy
